@@ -65,8 +65,15 @@ func VerifC09H265() {
 	pl := verifC09Payload("C09.len")
 	used := &H265Packet{}
 	used.WithDONL(donl)
-	// bring the receiver into a used state with an arbitrary earlier payload
-	_, _ = used.Unmarshal(verifBytes("earlier", verifCase("earlier.len", 0, 4)))
+	// bring the receiver into a used state: an arbitrary short payload, or a well-formed
+	// FU start fragment (which carries DONL when enabled)
+	if verifCase("earlier.kind", 0, 1) == 0 {
+		_, _ = used.Unmarshal(verifBytes("earlier", verifCase("earlier.len", 0, 4)))
+	} else {
+		fuStart := []byte{49 << 1, verifU8("earlier.h1")&0xF8 | 1, 0x80 | verifU8("earlier.type")&0x3F, verifU8("earlier.d0"), verifU8("earlier.d1"), verifU8("earlier.b0"), verifU8("earlier.b1")}
+		_, _ = used.Unmarshal(fuStart)
+		verifCover("C09.h265.after-fu-start")
+	}
 	_, errU := used.Unmarshal(pl)
 	fresh := &H265Packet{}
 	fresh.WithDONL(donl)
@@ -87,6 +94,10 @@ func VerifC09H265() {
 			f, ok := fresh.Packet().(*H265FragmentationUnitPacket)
 			verifAssert("C09.h265.reuse-kind", ok)
 			verifAssert("C09.h265.reuse-fu", u.PayloadHeader() == f.PayloadHeader() && u.FuHeader() == f.FuHeader() && verifEqBytes(u.Payload(), f.Payload()))
+			verifAssert("C09.h265.reuse-fu-donl", (u.DONL() == nil) == (f.DONL() == nil))
+			if u.DONL() != nil && f.DONL() != nil {
+				verifAssert("C09.h265.reuse-fu-donl-value", *u.DONL() == *f.DONL())
+			}
 		case *H265AggregationPacket:
 			f, ok := fresh.Packet().(*H265AggregationPacket)
 			verifAssert("C09.h265.reuse-kind", ok)
@@ -184,6 +195,24 @@ func VerifC09AV1NoPanic() {
 	_ = d.IsPartitionTail(verifBool("marker"), pl)
 	_, _ = d.Unmarshal(verifBytes("second", verifCase("second.len", 0, verifBound("C09.len.av1.second"))))
 	verifCover("C09.av1dep.end")
+}
+
+// a length field written as a maximal-length LEB128 (continuation bits forced,
+// value bits symbolic): 10 or 11 bytes after the aggregation header
+func VerifC09AV1LongLeb128() {
+	hdr := verifU8("agghdr")
+	n := verifCase("contbytes", 7, 9)
+	pl := []byte{hdr}
+	for i := 0; i < n; i++ {
+		pl = append(pl, 0x80|verifU8("cont"))
+	}
+	pl = append(pl, verifU8("last")&0x7F)
+	pl = append(pl, verifBytes("after", verifCase("after", 0, 1))...)
+	d := &AV1Depacketizer{}
+	_, _ = d.Unmarshal(pl)
+	p := &AV1Packet{}
+	_, _ = p.Unmarshal(pl)
+	verifCover("C09.av1.longleb.end")
 }
 
 func VerifC09AV1PacketNoPanic() {
